@@ -182,7 +182,22 @@ def run(repo, res, tier):
     # ---- the root element as built by XMLFileWriter.write_to_file
     wcls = mod.classes["XMLFileWriter"]
     wt = wcls.methods["write_to_file"]
-    order = [n.func.attr for n in sorted((x for x in walk_no_nested(wt) if isinstance(x, ast.Call)), key=lambda x: (x.lineno, x.col_offset)) if isinstance(n.func, ast.Attribute) and isinstance(n.func.value, ast.Name) and n.func.value.id == "self" and n.func.attr in ("_write_header", "_add_all_objects_from_scenario", "_add_all_planning_problems_from_planning_problem_set")]
+    BUILD = ("_write_header", "_add_all_objects_from_scenario", "_add_all_planning_problems_from_planning_problem_set")
+
+    def build_order(fn_, seen_=()):
+        """self-calls that build the document, in program order; other helpers of the writer are looked into"""
+        out_ = []
+        for c_ in sorted((x for x in walk_no_nested(fn_) if isinstance(x, ast.Call)), key=lambda x: (x.lineno, x.col_offset)):
+            if isinstance(c_.func, ast.Attribute) and isinstance(c_.func.value, ast.Name) and c_.func.value.id in ("self", "cls"):
+                if c_.func.attr in BUILD:
+                    out_.append(c_.func.attr)
+                else:
+                    _o, h_ = repo.find_method(wcls, c_.func.attr)
+                    if h_ is not None and id(h_) not in seen_:
+                        out_ += build_order(h_, tuple(seen_) + (id(h_),))
+        return out_
+
+    order = build_order(wt)
     if order != ["_write_header", "_add_all_objects_from_scenario", "_add_all_planning_problems_from_planning_problem_set"]:
         raise AnalysisError("XMLFileWriter.write_to_file no longer builds header, objects, planning problems in that order: %s" % order)
     root = Node("commonRoad", wt, "write_to_file")
